@@ -107,12 +107,13 @@ def make_graders(rng, extra):
         {'expect': 'tiny', 'grade_decimal': 0.1},
         {'expect': 'zero', 'grade_decimal': 0, 'msg': 'zero msg'},
         {'expect': 'pinned', 'grade_decimal': 1, 'ok': 'partial'},
+        {'expect': 'pinnedf', 'ok': False},          # full credit labelled ok=False: the GRADE is what gets scaled
     )
     out = []
     wrong_msg = rng.choice(['', 'nope'])
     ordered = rng.choice([True, False])
     out.append(('String', lambda cfg: StringGrader(answers=answers, wrong_msg=wrong_msg, **cfg),
-                ['full', 'half', 'third', 'tiny', 'zero', 'wrong', '', 'pinned']))
+                ['full', 'half', 'third', 'tiny', 'zero', 'wrong', '', 'pinned', 'pinnedf']))
     out.append(('SingleList', lambda cfg: SingleListGrader(
         answers=(['a', 'b', 'c'], {'expect': ['d', 'e', 'f'], 'grade_decimal': 0.5, 'msg': 'alt'}),
         subgrader=StringGrader(), **cfg),
@@ -121,7 +122,7 @@ def make_graders(rng, extra):
         answers=[answers, ('x', {'expect': 'y', 'grade_decimal': 0.25}), 'z'],
         subgraders=StringGrader(), ordered=ordered, **cfg),
         [['full', 'x', 'z'], ['half', 'y', 'z'], ['zero', 'q', 'q'], ['q', 'q', 'q'],
-         ['z', 'third', 'x'], ['tiny', 'tiny', 'tiny'], ['pinned', 'y', 'w']]))
+         ['z', 'third', 'x'], ['tiny', 'tiny', 'tiny'], ['pinned', 'y', 'w'], ['pinnedf', 'x', 'q']]))
     # debug output is appended AFTER the note: the note must survive it (messages are compared without the log)
     out.append(('ListDebug', lambda cfg: ListGrader(
         answers=[answers, ('x', {'expect': 'y', 'grade_decimal': 0.25}), 'z'],
